@@ -150,6 +150,35 @@ func (x *c12) checkClose() {
 func (x *c12) throughFields(roots []ssa.Value, depth int) []ssa.Value {
 	var out []ssa.Value
 	for _, r := range roots {
+		// a parameter of a helper (not of an exported entry point): the
+		// arguments of all its static call sites in the package
+		if pa, isPa := r.(*ssa.Parameter); isPa && depth <= 3 && pa.Parent() != nil && !x.anchors[pa.Parent()] && x.inPkg(pa.Parent()) {
+			idx := -1
+			for i, q := range pa.Parent().Params {
+				if q == pa {
+					idx = i
+				}
+			}
+			n := 0
+			if idx >= 0 {
+				for _, f := range x.p.Funcs {
+					if !x.inPkg(f) {
+						continue
+					}
+					allInstrs(f, func(in ssa.Instruction) {
+						ci, ok := in.(ssa.CallInstruction)
+						if !ok || ci.Common().IsInvoke() || staticCallee(ci) != pa.Parent() || idx >= len(ci.Common().Args) {
+							return
+						}
+						n++
+						out = append(out, x.throughFields(c12Roots(ci.Common().Args[idx], nil), depth+1)...)
+					})
+				}
+			}
+			if n > 0 {
+				continue
+			}
+		}
 		id, _, ok := fieldOfValue(r)
 		if _, isAddr := r.(*ssa.FieldAddr); !ok || isAddr || depth > 2 || !strings.HasPrefix(id.Type, x.pkg+".") {
 			out = append(out, r)
